@@ -149,6 +149,40 @@ proof fn lemma_rice_no_overflow(n: u64, k: nat)
     }
 }
 
+/// the clean-up mask of the `checks` configuration: (1_u128 << k).wrapping_sub(1) as u64 = 2^k - 1
+pub proof fn lemma_mask128(k: u64)
+    requires k <= 63,
+    ensures ((1_u128 << k).wrapping_sub(1)) as u64 == low_bits_mask(k as nat),
+{
+    let x: u128 = 1_u128 << k;
+    assert(x as u64 == (1u64 << k) && x >= 1 && x <= 0x8000_0000_0000_0000u128) by (bit_vector) requires k <= 63, x == 1_u128 << k;
+    lemma2_to64();
+    lemma2_to64_rest();
+    lemma_pow2_strictly_increases(k as nat, 64);
+    lemma_u64_shl_is_mul(1, k);
+    assert((1u64 << k) == pow2(k as nat));
+    assert(x as u64 as nat == pow2(k as nat));
+    assert(x == pow2(k as nat));
+}
+
+/// masking with 2^k - 1 yields a clean value with the same k-bit field
+pub proof fn lemma_masked_field(le: bool, n: u64, k: nat, nm: u64)
+    requires k <= 63, nm == n & (((1_u128 << (k as u64)).wrapping_sub(1)) as u64),
+    ensures (nm as nat) < pow2(k), field(le, nm, k) =~= field(le, n, k),
+{
+    lemma_mask128(k as u64);
+    lemma_u64_low_bits_mask_is_mod(n, k);
+    lemma_pow2_pos(k);
+    lemma_mod_bound(n as int, pow2(k) as int);
+    lemma2_to64();
+    lemma2_to64_rest();
+    lemma_pow2_strictly_increases(k, 64);
+    let r = (n as nat % pow2(k)) as u64;
+    assert(nm == n % (pow2(k) as u64));
+    assert(nm == r);
+    lemma_field_low(le, n, k);
+}
+
 //@FN file=src/codes/rice.rs item=- name=len_rice
 //@SIG pub fn len_rice(n: u64, log2_b: usize) -> (r: usize)
 //@SPEC     requires log2_b <= 63, n < u64::MAX,
@@ -161,7 +195,8 @@ pub trait RiceWrite<E: Endianness>: BitWrite<E> {
 //@SIG fn write_rice(&mut self, n: u64, log2_b: usize) -> (r: Result<usize, Self::Error>)
 //@SPEC     requires log2_b <= 63, n < u64::MAX,
 //@SPEC     ensures r is Ok ==> r->Ok_0 == rice_len(n, log2_b as nat) && final(self).view() == old(self).view() + rice_bits(E::little(), n, log2_b as nat),
-//@PROLOGUE proof { lemma_rice_no_overflow(n, log2_b as nat); }
+//@PROLOGUE let ghost n0 = n; proof { lemma_rice_no_overflow(n, log2_b as nat); }
+//@PROOF[checks] after=[[let n = n & (1_u128 << log2_b).wrapping_sub(1) as u64;]] proof { lemma_masked_field(E::little(), n0, log2_b as nat, n); }
 //@END
 }
 
